@@ -122,12 +122,23 @@ def cramer_solve(T, S):
     return oarr(out)
 
 
-def _channels(q):
-    ins = [rnp.array([float(i + 1), 0.0, 0.0, 0.0]) for i in range(q)]
-    out = rnp.array([9.0, 0.0, 0.0, 0.0])
-    idx = {float(i + 1): i for i in range(q)}
-    idx[9.0] = q
-    return ins, out, (lambda a: idx[float(rnp.asarray(a)[0])])
+def _channels(q, int_first=False):
+    """q concrete input records + the output record, and the map record -> channel number used by the `ltf` stand-in.  The records
+    have fractional values (so that a cast to an integer type changes them); with int_first the first input is an integer-dtype
+    array (raw counts).  A record that is not one of the caller's channels any more is a contract violation of the solver."""
+    ins = [rnp.array([i + 1.5, 0.25 * (i + 1), -0.75, 0.5]) for i in range(q)]
+    if int_first:
+        ins[0] = rnp.array([3, -1, 4, 2], dtype=rnp.int64)
+    out = rnp.array([9.5, 0.125, -2.25, 1.75])
+    table = {tuple(float(v) for v in a): i for i, a in enumerate(ins)}
+    table[tuple(float(v) for v in out)] = q
+
+    def chan_of(a):
+        key = tuple(float(v) for v in rnp.asarray(a).reshape(-1))
+        if key not in table:
+            raise AssertionError("the solver analysed a record that is not one of the caller's channels: %r" % (key,))
+        return table[key]
+    return ins, out, chan_of
 
 
 def pinv_stub(T, **k):
@@ -143,9 +154,9 @@ def pinv_stub(T, **k):
     return out.view(SymNd)
 
 
-def run_miso(W, which, q, G, order=None, illcond=False):
+def run_miso(W, which, q, G, order=None, illcond=False, int_first=False):
     import speckit.systems as S
-    ins, out, chan = _channels(q)
+    ins, out, chan = _channels(q, int_first)
     order = list(order) if order is not None else list(range(q))
     ltf = make_ltf(W, G, q, chan)
     fn = {"numeric": "MISO_numeric_optimal_spectral_analysis", "analytic": "MISO_analytic_optimal_spectral_analysis"}[which]
@@ -233,9 +244,17 @@ def ob_miso_q4(W):
     W.goal("q4/residual^2 = Schur complement", W.eq(asd * asd, pivot2))
 
 
-def ob_agree(W, q, illcond=False):
+def ob_agree(W, q, illcond=False, int_first=False):
     L, ok = cholesky_inputs(W, q + 1)
     if not ok:
+        return
+    if int_first:
+        # inputs of mixed dtype (integer counts first): every channel must reach the spectral estimator with its values intact
+        G = gram(W, L)
+        pivot2 = L[q][q] * L[q][q]
+        for which in ("numeric", "analytic"):
+            a = run_miso(W, which, q, G, int_first=True)
+            W.goal("%s/residual^2 = Schur complement with an integer-dtype first input" % which, W.eq(a * a, pivot2))
         return
     if illcond and W.sym:
         # replay-friendly models: inputs in very different units (second pivot 2^-24 of the first), so that the REAL np.linalg.cond
@@ -293,6 +312,8 @@ def obligations(tier):
             if q <= 2:
                 obs.append({"name": "%s/q%d/remix" % (which, q), "fn": "ob_miso", "params": {"which": which, "q": q, "case": "remix"}, "fork": True, "max_paths": 64, "timeout": to, "weight": 20})
         obs.append({"name": "agree/q%d" % q, "fn": "ob_agree", "params": {"q": q}, "fork": True, "max_paths": 64, "timeout": to, "weight": q ** 3})
+        if q == 2:
+            obs.append({"name": "agree/q%d/int-first-input" % q, "fn": "ob_agree", "params": {"q": q, "int_first": True}, "fork": True, "max_paths": 64, "timeout": to, "weight": q ** 3})
         if q == 2:     # (a 1x1 matrix has condition number 1: the fallback branch is unreachable for one input)
             obs.append({"name": "agree/q%d/ill-conditioned" % q, "fn": "ob_agree", "params": {"q": q, "illcond": True}, "fork": True, "max_paths": 64, "timeout": to, "weight": q ** 3})
     return obs
